@@ -107,6 +107,8 @@ def _make_array(recipe):
         m = max(1, d // 2)
         base = rs.standard_normal((n, m))
         a = base[:, rs.randint(m, size=d)]
+    elif kind == "samerows":
+        a = np.tile(rs.standard_normal((1, d)), (n, 1))  # every sample identical: all distances 0
     elif kind == "lowrank":
         r = max(1, min(n, d) // 2)
         a = rs.standard_normal((n, r)) @ rs.standard_normal((r, d))
@@ -154,6 +156,11 @@ def explicit(recipe):
 STORAGE_KINDS = ["C", "F", "view", "readonly", "memmap"]
 
 
+class CallerArray(np.ndarray):
+    """An ndarray subclass in the caller's hands (validation turns it into a base-class
+    VIEW of the same memory, not a copy)."""
+
+
 class Heap:
     """Caller-owned arrays with byte snapshots and canary margins."""
 
@@ -189,6 +196,19 @@ class Heap:
                 buf = np.full((2 * n + 2,), self._canary(values.dtype), dtype=values.dtype)
                 arr = buf[1 : 2 * n + 1 : 2]
             arr[...] = values
+        elif storage == "subclass":
+            arr = np.array(values, order="C", copy=True).view(CallerArray)
+        elif storage == "memmap_rw":
+            # a writable (copy-on-write) memory map of the caller's file: a write through a
+            # view of it is possible and changes what the caller sees
+            if self._tmpdir is None:
+                self._tmpdir = tempfile.mkdtemp(prefix="hostsim_heap_", dir=os.environ.get("HOSTSIM_TMP") or None)
+            path = os.path.join(self._tmpdir, f"{name}.rw.dat")
+            mm = np.memmap(path, dtype=values.dtype, mode="w+", shape=values.shape)
+            mm[...] = values
+            mm.flush()
+            del mm
+            arr = np.memmap(path, dtype=values.dtype, mode="c", shape=values.shape)
         elif storage == "memmap":
             if self._tmpdir is None:
                 self._tmpdir = tempfile.mkdtemp(prefix="hostsim_heap_", dir=os.environ.get("HOSTSIM_TMP") or None)
@@ -288,7 +308,7 @@ class Heap:
             import shutil
 
             for e in self.entries.values():
-                if e["storage"] == "memmap":
+                if e["storage"] in ("memmap", "memmap_rw"):
                     e["arr"] = None
             shutil.rmtree(self._tmpdir, ignore_errors=True)
             self._tmpdir = None
